@@ -155,3 +155,56 @@ Qed.
 Lemma keep_tail_refuted_lemma :
   exists old new : list nat, write_run_keep old new <> new /\ write_run old new = new.
 Proof. exists [1; 2; 3]%nat, [7]%nat. split; [discriminate | reflexivity]. Qed.
+
+(* CSV lines: the number of fields a reader gets = number of columns + separators inside the fields *)
+Lemma count_char_app c a b : count_char c (a ++ b) = (count_char c a + count_char c b)%nat.
+Proof. induction a as [|x a IH]; [reflexivity|]. cbn. rewrite IH. lia. Qed.
+
+Lemma split_count_join sep (fields : list lstr) :
+  fields <> [] ->
+  split_count sep (csv_join sep fields) = (List.length fields + fold_right Nat.add 0%nat (map (count_char sep) fields))%nat.
+Proof.
+  intros Hne. unfold split_count. induction fields as [|f r IH]; [contradiction|].
+  destruct r as [|g r'].
+  - cbn. lia.
+  - assert (Hg : g :: r' <> []) by discriminate. specialize (IH Hg).
+    change (csv_join sep (f :: g :: r')) with (f ++ sep :: csv_join sep (g :: r')).
+    rewrite count_char_app. change (count_char sep (sep :: csv_join sep (g :: r')))
+      with ((if Ascii.eqb sep sep then 1 else 0) + count_char sep (csv_join sep (g :: r')))%nat.
+    rewrite Ascii.eqb_refl.
+    change (map (count_char sep) (f :: g :: r')) with (count_char sep f :: map (count_char sep) (g :: r')).
+    change (List.length (f :: g :: r')) with (S (List.length (g :: r'))).
+    cbn [fold_right]. lia.
+Qed.
+
+(* separator-free fields: exactly one field per column; a field containing the separator: more *)
+Lemma csv_fields_exact sep (fields : list lstr) :
+  fields <> [] -> Forall (fun f => count_char sep f = 0%nat) fields ->
+  split_count sep (csv_join sep fields) = List.length fields.
+Proof.
+  intros Hne F. rewrite split_count_join by exact Hne.
+  assert (Z0 : fold_right Nat.add 0%nat (map (count_char sep) fields) = 0%nat).
+  { clear Hne. induction F as [|f r Hf Hr IH]; [reflexivity|]. cbn [map fold_right]. lia. }
+  rewrite Z0. lia.
+Qed.
+
+Lemma csv_field_with_separator sep (fields : list lstr) f :
+  In f fields -> (0 < count_char sep f)%nat -> (List.length fields < split_count sep (csv_join sep fields))%nat.
+Proof.
+  intros Hin Hpos. assert (Hne : fields <> []) by (destruct fields; [contradiction | discriminate]).
+  rewrite split_count_join by exact Hne.
+  assert (G : (count_char sep f <= fold_right Nat.add 0%nat (map (count_char sep) fields))%nat).
+  { clear Hne. induction fields as [|x r IH]; [contradiction|]. cbn. destruct Hin as [->|Hin]; [lia|]. specialize (IH Hin). lia. }
+  lia.
+Qed.
+
+(* a text without , ; CR LF has no separator of either dialect *)
+Lemma sepfree_text_count s : sepfree_text s = true ->
+  count_char ","%char (lstr_of s) = 0%nat /\ count_char ";"%char (lstr_of s) = 0%nat.
+Proof.
+  unfold sepfree_text. generalize (lstr_of s) as l. induction l as [|c l IH]; [split; reflexivity|].
+  cbn [forallb count_char]. intros H. apply andb_true_iff in H as [Hc Hl]. destruct (IH Hl) as [A B].
+  unfold sep_char in Hc. apply negb_true_iff in Hc.
+  apply orb_false_iff in Hc as [Hc _]. apply orb_false_iff in Hc as [Hc _]. apply orb_false_iff in Hc as [H1 H2].
+  rewrite H1, H2, A, B. split; reflexivity.
+Qed.
